@@ -61,6 +61,8 @@ class Ref:
             self.log.append(k)
             if self.on_miss == 'raise' and k == 'b':
                 raise OnMissFailed(k)            # the callback raised: nothing to cache
+            if self.on_miss == 'store':
+                self.set(k, ('s', k))            # the callback itself stored the key before returning
             v = None if self.on_miss == 'none' else ('m', k)
             self.set(k, v)
             return v
@@ -138,10 +140,14 @@ class St:
         if on_miss:
             log = self.log
 
+            holder = self
+
             def fn(k):
                 log.append(k)
                 if on_miss == 'raise' and k == 'b':
                     raise OnMissFailed(k)
+                if on_miss == 'store':
+                    holder.c[k] = ('s', k)      # a loader that fills the cache itself (re-entrant use)
                 return None if on_miss == 'none' else ('m', k)
         self.fn = fn
         self.c = cls(max_size=max_size, on_miss=fn)
@@ -281,6 +287,9 @@ class Spec:
         m.append(('update_map', tuple((k, 1) for k in K)))            # more items than capacity
         m.append(('update_pairs', ((last, 1), (last, 0))))            # repeated key
         m.append(('update_pairs', ((first, 0), (K[1], 1), (first, 1))))
+        # more pairs than the cache holds, the same key twice among the last max_size of them
+        m.append(('update_pairs', ((last, 0),) + tuple((k, 1) for k in K[1:-1][:max(0, self.max_size - 2)])
+                  + ((first, 1), (first, 0))))
         m.append(('update_iter', ((K[1], 0), (last, 1))))
         m.append(('update_kw', ((last, 1),)))
         m.append(('update_mapkw', ((first, 0),), ((K[1], 1),)))
@@ -537,6 +546,7 @@ def configs(tier):
         for ms in ((2,) if tier == 'quick' else (1, 2, 3)):
             out.append((cls, ms, 'none'))
             out.append((cls, ms, 'raise'))
+            out.append((cls, ms, 'store'))
     return out
 
 
